@@ -1,7 +1,7 @@
 /* vocabulary for p?gstrf_bmod2D / bmod1D (sup-panel update of the w columns of a panel by ONE updating supernode).
  * Capacities: M rows (= stride of the n-by-w work arrays), W panel width, LC row subscripts, LUC stored values of L,
- * TVC scalars of tempv, NP threads.  The harness owns every array (in_*); scalar arguments are bound to in_* by [scalars].
- * Supernode geometry (ghost scalars bound by [geometry]): g_lptr = xlsub[fsupc] (start of the row list, in_nsupr rows),
+ * TVC scalars of tempv, NP threads.  The harness owns every array (in_*); the scalar arguments are the in_* scalars.
+ * Supernode geometry (ghost scalars bound by REQ(geometry)): g_lptr = xlsub[fsupc] (start of the row list, in_nsupr rows),
  * g_xf = xlusup[fsupc] (start of the in_nsupr x in_nsupc column-major block, lda = in_nsupr).
  * Panel column c (0 <= c < w): its U-segment w.r.t. the supernode covers supernode columns KFNZ(c)..krep. */
 #define KFNZ(c)    in_repfnz[(c)*in_m + in_krep]
@@ -11,22 +11,11 @@
 #define BLAS(c)    (ACTIVE(c) && SEGSZE(c) >= 4)                 /* the column goes through trsv/gemv (else hand-unrolled) */
 #define INLIST(p)  (g_lptr <= (p) && (p) < g_lptr + in_nsupr)     /* position inside the supernode's row list */
 #define DENSE(c,r) in_dense[(c)*in_m + (r)]
-#define DENSE0(c,r) g_dense0[(c)*in_m + (r)]
 /* offsets into lusup the update is defined on */
 #define TRI_OFF(c)   (g_xf + in_nsupr*NOZEROS(c) + NOZEROS(c))               /* diagonal block: row no_zeros, column no_zeros */
 #define RECT_OFF(c,r) (g_xf + in_nsupr*NOZEROS(c) + in_nsupc + (r))          /* row nsupc+r, column no_zeros */
 #define SNODE_END    (g_xf + in_nsupr*in_nsupc)
 #define MINI(a,b) ((a) < (b) ? (a) : (b))
-/* ---- loop-invariant vocabulary ---- */
-#define LDA (in_maxsuper + in_rowblk)                              /* ldaTmp: scalars per tempv slot */
-#define TRIREG(c) (BLAS(c) && (c)*LDA <= g_t && g_t < (c)*LDA + SEGSZE(c))   /* g_t lies in the TriTmp part used by column c */
-/* what never changes in dense[]: rows outside the supernode's list, rows of the list above the segment, columns with empty segment */
-#define DENSE_KEPT(e) ((!EX(e, LC, INLIST(e) && in_lsub[e] == g_r) ==> DENSE(g_c, g_r) == DENSE0(g_c, g_r)) \
-  && ((ACTIVE(g_c) && g_q < NOZEROS(g_c)) ==> DENSE(g_c, in_lsub[g_lptr + g_q]) == DENSE0(g_c, in_lsub[g_lptr + g_q])) \
-  && (!ACTIVE(g_c) ==> DENSE(g_c, g_r) == DENSE0(g_c, g_r)))
-#define GEMV_REC_OK (g_gemv_cnt == 1 ==> (g_gemv_n == SEGSZE(g_c) && g_gemv_aoff <= RECT_OFF(g_c, g_row) && RECT_OFF(g_c, g_row) < g_gemv_aoff + g_gemv_m))
-#define TRSV_REC_OK (g_trsv_cnt == 1 ==> (g_trsv_aoff == TRI_OFF(g_c) && g_trsv_n == SEGSZE(g_c)))
-#define B2I(x) ((x) ? 1 : 0)
 /* BLAS call records (one object, so that the frame has one target): total calls; calls, and their arguments, that concern the ghost
  * panel column g_c (trsv) resp. the ghost row g_row below the diagonal block of column g_c (gemv) */
 #ifndef SPEC_EXPAND
